@@ -48,7 +48,9 @@ package flamego
 //@   ensures result.(*responseWriter).ResponseWriter == w && result.(*responseWriter).method == method
 
 //@ func (*responseWriter).callBefore
-//@   props C13 C03
+//@   props C13 C03 C15
+// (the hooks run while no status is claimed or sent: a hook that panics leaves the writer able to send one, e.g. Recovery's 500)
+//@   requires[C13,C15] w.status == 0
 //@   requires w.hookCalls == 0 && hooksNonNil(w)
 //@   modifies w.hookCalls, w.hookOrder
 //@   ghost before elem#0: w.hookOrder[w.hookCalls] = i
@@ -61,6 +63,7 @@ package flamego
 //@   loop 0 decreases i + 1
 
 //@ func (*responseWriter).WriteHeader
+//@   partial-anchors
 //@   props C13 C05 C17 C03 C15 C14
 //@   requires rwInv(w)
 //@   requires 100 <= s && s <= 999
@@ -173,7 +176,7 @@ package flamego
 //@   ensures old(c.(*context).responseWriter.isWritten) ==> c.(*context).responseWriter.isWritten
 
 //@ func (*context).run
-//@   props C03 C05 C04 C15
+//@   props C03 C05 C04 C15 C14
 //@   skip typeassert nil@call:handleReturn
 //@   call Invoke#0 as handlerCallback(c, h)
 //@   requires ctxInv(c)
@@ -229,7 +232,7 @@ package flamego
 
 //@ func (*Flame).createContext
 //@   props C03 C05 C07 C02 C04 C12
-//@   ensures[C02] result.(*context).params == params
+//@   ensures[C02,C12] result.(*context).params == params
 //@   ensures[C12] result.(*context).urlPath == urlPath
 // request scope first, then the application's: the fresh injector of the request gets the Flame instance as parent
 //@   ensures[C04] inject.Injector(result).parentScope == iface(type(*Flame), f)
@@ -349,7 +352,7 @@ package flamego
 //@ define shortcutInv(r *router) bool = forall m string, p string :: has(r.staticRoutes, m) && has(r.staticRoutes[m], p) ==> shortcutOK(r.staticRoutes[m][p])
 
 //@ func (*router).ServeHTTP
-//@   props C07 C02 C10 C05 C01 C09
+//@   props C07 C02 C10 C05 C01 C09 C18 C12
 //@   requires[C10,C01,C09,C07] shortcutAgrees(r)
 //@   ghost before dyn#0: req.chosen = leaf
 //@   ghost before dyn#1: req.chosen = leaf
@@ -357,7 +360,7 @@ package flamego
 //@   ghost before notFound#1: req.chosen = nil
 //@   ensures[C10,C01,C09,C07] has(r.routeTrees, req.Method) ==> req.chosen == specNext(nodeOf(r.routeTrees[req.Method]), trimLeftSlash(req.URL.Path), 0, req.Header)
 //@   ensures[C10,C01,C09,C07] !has(r.routeTrees, req.Method) ==> req.chosen == nil
-//@   assert[C02] before dyn#1: params["route"] == routeStr(leafBase(leaf).route)
+//@   assert[C02,C12] before dyn#1: params["route"] == routeStr(leafBase(leaf).route)
 //@   requires routerWF(r) && treeWF()
 //@   requires w != nil && req != nil && req.URL != nil
 //@   modifies req.chosen, req.chains, route.Segment.str, route.Segment.strOnce.fired, route.Route.str, route.Route.strOnce.fired
@@ -1423,11 +1426,13 @@ package flamego
 //@   ensures forall n string :: n != name ==> has(r.router.namedRoutes, n) == old(has(r.router.namedRoutes, n)) && r.router.namedRoutes[n] == old(r.router.namedRoutes[n])
 
 // pairs -> map (a later pair wins); "withOptional" is extracted and removed; unknown names panic
+// ... and the answer is exactly what the named leaf built from that map (nothing is done to it afterwards)
 //@ func (*router).URLPath
 //@   props C12 C05
 //@   requires routerWF(r) && treeWF()
 //@   modifies route.Route.str
 //@   panics !has(r.namedRoutes, name)
 //@   ensures has(r.namedRoutes, name)
+//@   ensures[C12] result == callresult(URLPath#0)
 //@   loop 0 invariant vals != nil && fresh(vals) && 1 <= i && leaf != nil
 //@   loop 0 invariant forall k string :: has(vals, k) ==> exists j int :: 1 <= j && j < i && pairs[j - 1] == k
